@@ -98,8 +98,8 @@ def search(prop, unit, failure, repo):
 
 
 # searches too slow for the quick tier (they still run when a proof fails or is undecided, and always in the thorough tier)
-SLOW = ('c02-search', 'c07s-search')
-# cheap stand-ins explored in the quick tier for the properties whose own search is slow
+SLOW = ('c07s-search',)
+# further cheap searches explored in the quick tier (the .slpp writer / reader / Arrow oracles all bear on C02)
 QUICK_EXTRA = {'C02': ['c14-search', 'c10s-search', 'c18-search']}
 
 
